@@ -1,7 +1,7 @@
 """
 C06 - tract parsing is compositional: lots, divisions, acreages and aliquots.
 
-All sequences (length 2..3, thorough 4) over 21 element kinds x 5 separators x 6 configurations on
+All sequences (length 2..3, thorough 4) over 23 element kinds x 5 separators x 6 configurations on
 the real Tract parser.  Each element is generated from an abstract spec, so lots / divisions /
 acreages have computed expectations; aliquots use the differential oracle "what the element yields
 on its own under the same configuration" (the tiling itself is C02's subject).
@@ -15,7 +15,7 @@ ID = 'C06'
 LEVEL = 'model_checking'
 TECHNIQUE = ('bounded exhaustive enumeration of element sequences x separators x configurations on the real Tract parser; '
              'spec-derived expectations for lots/divisions/acreages, per-element differential oracle for aliquots')
-LEVEL_TEXT = ('Every sequence of 2-3 (thorough 4) elements from 21 kinds (single lot, range, and-list, () and [] acreage, second acreage '
+LEVEL_TEXT = ('Every sequence of 2-3 (thorough 4) elements from 23 kinds (single lot, range, and-list, () and [] acreage, second acreage '
               'for the same lot, divisions with and without "of", division over a range whose through-word is followed by "Lot", '
               'division that must stop at the second "Lot" word, three aliquot chains, ALL, repeated lot) x 9 separators (comma / semicolon / line break, with and without blanks) '
               ' x 6 configurations. Interference between neighbouring elements (fusion across a separator, lost ALL, acreage '
@@ -53,6 +53,9 @@ ELEMS = [
     ('S/2NW/4', [], {}, True),
     ('W/2SE/4', [], {}, True),
     ('ALL', [], {}, True),
+    # bare two-letter quarters: aliquots under clean_qq only (alone and in a list alike)
+    ('NE', [], {}, True),
+    ('SW', [], {}, True),
 ]
 SEPS = [', ', '; ', '\n', ',', ';', ' \n', '\n ', ',\n', ';\r\n']
 CFGS = [None, 'suppress_lot_divs', 'clean_qq', 'qq_depth.1', 'qq_depth_min.3', 'break_halves']
